@@ -20,7 +20,9 @@ LEVEL_TEXT = (
     'dollar_irrelevant; sheet_default (evaluation = evaluation of the workbook whose formulas are qualified with '
     'their own sheet, under ANY context policy, by induction on the evaluation depth); C03_range_partial '
     '(every member value exactly once under the decidable guard "no run of more than MAX_EMPTY blanks", with the '
-    'kernel-checked counter-example for D6); build_registers_resolved_ranges; reference_denotes_cell/range '
+    'kernel-checked counter-example for D6); build_registers_resolved_ranges; terms_complete / '
+    'terms_distinct_sheets / build_ranges_registers_terms (every range operand of a formula, also equal coordinates '
+    'on different sheets, is recorded and registered); reference_denotes_cell/range '
     '(evaluation of a spelt reference = Spec.denoteRef); blank_not_error; name_denotes. The model is tied to the '
     'running code by a differential run over generated multi-sheet workbooks (dict and .xlsx), direct '
     'resolve_ranges calls and the exhaustive column range.')
@@ -178,7 +180,7 @@ def ast_text(a):
     if k == 'u':
         return ('SUM' if a[1] == 0 else 'COUNTA') + '(' + ast_text(a[2]) + ')'
     if k == 'b':
-        return ast_text(a[2]) + '+' + ast_text(a[3])
+        return ast_text(a[2]) + ('-' if a[1] == 1 else '+') + ast_text(a[3])
     raise ValueError(a)
 
 
@@ -238,7 +240,11 @@ def scenario_line(scn):
         else:
             addr = f"{p['sheet']}!{colname(p['col'])}{p['row']}"
             probes.append('@'.join([enc(addr), 'a', enc(p['sheet']), str(p['col']), str(p['row'])]))
-    return '\t'.join(['C03', 'EV', T(scn['default']), ';'.join(items), ';'.join(names), ';'.join(probes)])
+    fields = ['C03', 'EV', T(scn['default']), ';'.join(items), ';'.join(names), ';'.join(probes)]
+    if scn.get('updates'):
+        fields.append(';'.join('@'.join([enc(f"{u['sheet']}!{colname(u['col'])}{u['row']}"), enc(u['sheet']),
+                                         str(u['col']), str(u['row']), w_value(u['v'])]) for u in scn['updates']))
+    return '\t'.join(fields)
 
 
 def probe_addr(p):
@@ -302,13 +308,7 @@ def build_real(scn, tmpdir=None):
     return Compiler().read_and_parse_dict(d, default_sheet=scn['default'])
 
 
-def eval_real(scn, tmpdir):
-    from xlcalculator import Evaluator
-    try:
-        model = build_real(scn, tmpdir)
-    except Exception as exc:  # noqa: BLE001
-        return ['X:build:' + type(exc).__name__ for _ in scn['probes']]
-    ev = Evaluator(model)
+def _eval_probes(ev, scn):
     out = []
     for p in scn['probes']:
         try:
@@ -318,6 +318,50 @@ def eval_real(scn, tmpdir):
         except Exception as exc:  # noqa: BLE001
             out.append('X:' + type(exc).__name__)
     return out
+
+
+def updated_scenario(scn):
+    """the workbook after the set_cell_value steps, as a scenario of its own (for a fresh compile)"""
+    cells = [dict(c) for c in scn['cells']]
+    for u in scn['updates']:
+        for c in cells:
+            if (c['sheet'], c['col'], c['row']) == (u['sheet'], u['col'], u['row']):
+                if not isinstance(c['v'], dict):
+                    c['v'] = u['v']
+                break
+        else:
+            cells.append({'sheet': u['sheet'], 'col': u['col'], 'row': u['row'], 'v': u['v'], 'keyq': True})
+    t = dict(scn, cells=cells)
+    t.pop('updates')
+    return t
+
+
+def eval_real(scn, tmpdir):
+    """values of the probes; with `updates`: followed by their values after the set_cell_value steps on the
+    SAME model and evaluator.  Second result: the values in a freshly compiled model of the updated workbook."""
+    from xlcalculator import Evaluator
+    n = len(scn['probes'])
+    passes = 2 if scn.get('updates') else 1
+    try:
+        model = build_real(scn, tmpdir)
+    except Exception as exc:  # noqa: BLE001
+        return ['X:build:' + type(exc).__name__] * (n * passes), None
+    ev = Evaluator(model)
+    out = _eval_probes(ev, scn)
+    fresh = None
+    if passes == 2:
+        try:
+            for u in scn['updates']:
+                ev.set_cell_value(f"{u['sheet']}!{colname(u['col'])}{u['row']}", u['v'])
+            out += _eval_probes(ev, scn)
+        except Exception as exc:  # noqa: BLE001
+            out += ['X:set:' + type(exc).__name__] * n
+        try:
+            t = updated_scenario(scn)
+            fresh = _eval_probes(Evaluator(build_real(t, tmpdir)), t)
+        except Exception as exc:  # noqa: BLE001
+            fresh = ['X:build:' + type(exc).__name__] * n
+    return out, fresh
 
 
 def probe_formula(scn, p):
@@ -441,6 +485,21 @@ def gen_scenario(rng, mode=None, via=None, special_sheet=None):
         put(s, kc, crow + i, {'f': ['b', 0, own, step]})
     last = sheets[depth % len(sheets)]
     put(last, kc, crow + depth, {'f': ref_cell(rng, last, kc + 1, crow + depth, last)})
+    # dependency block: level 0 = inputs (column dcol on one sheet), level 1 = formulas over level 0 on another
+    # sheet (column dcol+1), level 2 = formulas over level 1 on a third (column dcol+2); rows crow .. crow+2
+    dcol = oc + w + 5
+    dsheets = [sheets[(j + rng.randrange(len(sheets))) % len(sheets)] for j in range(3)]
+    drows = rng.randint(2, 4)
+    for i in range(drows):
+        put(dsheets[0], dcol, crow + i, rng.randint(1, 99))
+        put(dsheets[1], dcol + 1, crow + i, {'f': ['b', 0, ref_cell(rng, dsheets[0], dcol, crow + i, dsheets[1]),
+                                                     ['n', rng.randint(0, 9)]]})
+        if i == 0 or rng.random() < 0.7:
+            put(dsheets[2], dcol + 2, crow + i, {'f': ['b', rng.choice([0, 1]),
+                                                        ref_cell(rng, dsheets[1], dcol + 1, crow + i, dsheets[2]),
+                                                        ['n', rng.randint(0, 9)]]})
+        else:
+            put(dsheets[2], dcol + 2, crow + i, rng.randint(1, 99))
     # defined names
     names = []
     for i in range(rng.choice([0, 0, 1, 2, 3])):
@@ -472,6 +531,39 @@ def gen_scenario(rng, mode=None, via=None, special_sheet=None):
         put(here, pc, r, {'f': ast})
         probes.append({'sheet': here, 'col': pc, 'row': r})
 
+    def same_coords_probe(here):
+        """two or three references with EQUAL coordinates on different sheets (or the same sheet in different
+        spellings) in one formula"""
+        targets = list(sheets)
+        rng.shuffle(targets)
+        targets = targets[:rng.choice([2, 2, 3])] if len(targets) > 1 else [sheets[0], sheets[0]]
+        kind = rng.random()
+        if kind < 0.35:
+            c, r = rng.randrange(oc, oc + w + 1), rng.randrange(orow, orow + h + 1)
+            parts = [ref_cell(rng, ts, c, r, here) for ts in targets]
+        else:
+            if rng.random() < 0.4:
+                c1, r1, c2, r2 = oc, orow, oc + w - 1, orow + h - 1
+            else:
+                c1 = rng.randrange(oc, oc + w)
+                c2 = rng.randrange(c1, oc + w)
+                r1 = rng.randrange(orow, orow + h)
+                r2 = rng.randrange(r1, orow + h)
+            f = 1 if (kind > 0.75 and (c2 - c1 + 1) * (r2 - r1 + 1) <= 200) else 0
+            parts = [['u', f, ref_range(rng, ts, c1, r1, c2, r2, here)] for ts in targets]
+        a = parts[0]
+        for q in parts[1:]:
+            a = ['b', rng.choice([0, 1]), a, q]
+        add_probe(here, a)
+
+    for _ in range(rng.randint(3, 6)):
+        same_coords_probe(rng.choice(sheets))
+    # range consumers over the dependency block (re-evaluated after the inputs change)
+    for lvl in range(3):
+        a = ref_range(rng, dsheets[lvl], dcol + lvl, crow, dcol + lvl, crow + drows - 1, rng.choice(sheets))
+        here = rng.choice(sheets)
+        a = ref_range(rng, dsheets[lvl], dcol + lvl, crow, dcol + lvl, crow + drows - 1, here)
+        add_probe(here, ['u', 0, a] if rng.random() < 0.7 else a)
     for _ in range(nprobe):
         here = rng.choice(sheets)
         ts = rng.choice(sheets) if rng.random() < 0.6 else here
@@ -518,8 +610,23 @@ def gen_scenario(rng, mode=None, via=None, special_sheet=None):
     # the chain itself, read directly and through a reference
     probes.append({'sheet': sheets[0], 'col': kc, 'row': crow})
     add_probe(rng.choice(sheets), ref_cell(rng, sheets[0], kc, crow, sheets[0], force_qualified=True))
-    return {'default': default, 'via': via, 'sheets': sheets, 'cells': cells, 'names': names, 'probes': probes,
-            'shape': f'{nsheets}sh/{mode}/{h}x{w}@{colname(oc)}{orow}/{via}'}
+    # set_cell_value steps: inputs of the dependency block (depth 1, 2 and 3 below the three range probes), a chain
+    # constant, constants and empty cells of the used area
+    updates = []
+    if rng.random() < 0.8:
+        for i in rng.sample(range(drows), rng.randint(1, drows)):
+            updates.append({'sheet': dsheets[0], 'col': dcol, 'row': crow + i, 'v': rng.randint(100, 9999)})
+        s_ = rng.choice(sheets)
+        updates.append({'sheet': s_, 'col': kc + 1, 'row': crow + rng.randrange(depth + 1), 'v': rng.randint(10000, 99999)})
+        for _ in range(rng.randint(0, 3)):
+            s_, c_, r_ = rng.choice(sheets), rng.randrange(oc, oc + w), rng.randrange(orow, orow + h)
+            if not isinstance(content.get((s_, c_, r_)), dict):
+                updates.append({'sheet': s_, 'col': c_, 'row': r_, 'v': rng.randint(1000, 9999)})
+    scn = {'default': default, 'via': via, 'sheets': sheets, 'cells': cells, 'names': names, 'probes': probes,
+           'shape': f'{nsheets}sh/{mode}/{h}x{w}@{colname(oc)}{orow}/{via}'}
+    if updates:
+        scn['updates'] = updates
+    return scn
 
 
 # fixed regression / witness scenarios (run first on every run)
@@ -611,6 +718,31 @@ def fixed_scenarios():
                                {'sheet': 'A!B', 'col': 16, 'row': 3}, {'sheet': 'A!B', 'col': 16, 'row': 4},
                                {'sheet': S1, 'col': 16, 'row': 5}, {'sheet': S1, 'col': 16, 'row': 6}],
                     'shape': f'D1102/{via}'}))
+    # seeded round 2 (A): a range consumer re-evaluated after an input two levels below its members changed
+    cs = [_c('Input', 1, 1, 10), _c('Input', 2, 1, _f(['b', 0, ['r', 'A1', 'c', None, 1, 1, 1, 1], ['r', '$A$1', 'c', None, 1, 1, 1, 1]])),
+          _c('Calc Sheet', 3, 1, _f(['b', 0, ['r', 'Input!B1', 'c', 'Input', 2, 1, 2, 1], ['n', 1]])),
+          _c('Calc Sheet', 3, 2, _f(['b', 0, ['r', 'Input!B1', 'c', 'Input', 2, 1, 2, 1], ['n', 2]])),
+          _c('Calc Sheet', 3, 3, 5),
+          _c('Calc Sheet', 5, 1, _f(['u', 0, ['r', 'C1:C3', 'r', None, 3, 1, 3, 3]])),
+          _c('Input', 5, 2, _f(['u', 0, ['r', "'Calc Sheet'!$C$1:$C$3", 'r', 'Calc Sheet', 3, 1, 3, 3]])),
+          _c('Input', 5, 3, _f(['r', "'Calc Sheet'!C1:C3", 'r', 'Calc Sheet', 3, 1, 3, 3]))]
+    out.append(('stale-range-after-set', {'default': 'Input', 'via': 'dict', 'names': [], 'cells': cs,
+                'probes': [{'sheet': 'Calc Sheet', 'col': 5, 'row': 1}, {'sheet': 'Input', 'col': 5, 'row': 2},
+                           {'sheet': 'Input', 'col': 5, 'row': 3}],
+                'updates': [{'sheet': 'Input', 'col': 1, 'row': 1, 'v': 100}], 'shape': 'stale-range'}))
+    # seeded round 2 (B): the same rectangle on two sheets in ONE formula
+    jr = lambda sh, raw: ['r', raw, 'r', sh, 1, 1, 2, 2]
+    data = [_c('Jan', 1, 1, 1), _c('Jan', 2, 1, 2), _c('Jan', 1, 2, 3), _c('Jan', 2, 2, 4),
+            _c('Feb 2024', 1, 1, 10), _c('Feb 2024', 2, 1, 20), _c('Feb 2024', 1, 2, 30), _c('Feb 2024', 2, 2, 40)]
+    one = [(S1, ['b', 1, ['u', 0, jr('Jan', 'Jan!$A$1:$B$2')], ['u', 0, jr('Feb 2024', "'Feb 2024'!$A$1:$B$2")]]),
+           (S1, ['b', 0, ['u', 1, jr('Feb 2024', "'Feb 2024'!A1:B2")], ['u', 1, jr('Jan', 'Jan!A1:B2')]]),
+           ('Jan', ['b', 1, ['u', 0, jr(None, 'A1:B2')], ['u', 0, jr('Feb 2024', "'Feb 2024'!A$1:B$2")]]),
+           ('Feb 2024', ['b', 0, ['u', 0, jr('Jan', 'Jan!A1:$B$2')], ['u', 0, jr(None, '$A$1:B2')]]),
+           (S1, ['b', 0, ['r', 'Jan!$B$2', 'c', 'Jan', 2, 2, 2, 2], ['r', "'Feb 2024'!$B$2", 'c', 'Feb 2024', 2, 2, 2, 2]])]
+    for k, (here, a) in enumerate(one):       # one formula per workbook: no other formula registers the ranges
+        out.append((f'same-rectangle-two-sheets-{k}', {'default': S1, 'via': 'dict', 'names': [],
+                    'cells': data + [_c(here, 16, 1, _f(a))], 'probes': [{'sheet': here, 'col': 16, 'row': 1}],
+                    'shape': f'same-rectangle-{k}'}))
     # D0303: "," in a sheet name (range references only; the text before the comma is read as a cell)
     cs = [_c('P2,x', 1, 1, 3), _c('P2,x', 1, 2, 4), _c(S1, 16, 3, _f(['r', "'P2,x'!A1", 'c', 'P2,x', 1, 1, 1, 1])),
           _c(S1, 16, 4, _f(['u', 0, ['r', "'P2,x'!A1:A2", 'r', 'P2,x', 1, 1, 1, 2]]))]
@@ -648,6 +780,8 @@ class EvRunner:
         impls = d['impl'].split('|')
         specs = d['spec'].split('|')
         trunc = d.get('trunc', '').split('|')
+        if 'impl2' in d:
+            impls, specs, trunc = impls + d['impl2'].split('|'), specs + d['spec2'].split('|'), trunc + d['trunc2'].split('|')
         flags = [x for x in d.get('kf', '').split(',') if x]
         out = []
         for i, (r, m, s) in enumerate(zip(reals, impls, specs)):
@@ -674,15 +808,29 @@ class EvRunner:
             d = parse_kv(r)
             if 'impl' not in d:
                 raise RuntimeError(f'driver: {r[:300]!r} for scenario {name}')
-            reals = eval_real(scn, self.tmp.name)
+            reals, fresh = eval_real(scn, self.tmp.name)
             cls, impls, specs = self.classify(scn, reals, d, label)
             res.count('workbooks:' + label)
             res.count('via:' + scn.get('via', 'dict'))
+            n = len(scn['probes'])
+            if fresh is not None:
+                kinds = {i: k for i, k, _ in cls}
+                for j in range(n):
+                    res.evaluations += 1
+                    res.count('probe:fresh-compile')
+                    if norm(fresh[j]) != norm(reals[n + j]) and kinds.get(n + j) == 'ok':
+                        res.violations.append({
+                            'what': 'after set_cell_value a probe differs from a freshly compiled model of the same workbook',
+                            'input': {'kind': 'ev', 'probe': probe_formula(scn, scn['probes'][j]),
+                                      'scenario': dict(scn, probes=[scn['probes'][j]])},
+                            'expected': fresh[j][:300], 'got': reals[n + j][:300]})
             for i, kind, fid in cls:
-                p = scn['probes'][i]
+                p = scn['probes'][i % n]
                 res.evaluations += 1
                 res.count('probe:' + kind)
-                pf = probe_formula(scn, p)
+                if i >= n:
+                    res.count('probe:after-set_cell_value')
+                pf = ('after set_cell_value: ' if i >= n else '') + probe_formula(scn, p)
                 res.nontrivial.add(scn.get('shape', name) + '|' + pf.split(': ', 1)[-1])
                 if specs[i].startswith('A:'):
                     res.count('result:array')
@@ -696,9 +844,11 @@ class EvRunner:
                 elif kind == 'drift':
                     res.drift.append({'scenario': name, 'probe': pf, 'real': reals[i][:200], 'impl_model': impls[i][:200]})
                 elif kind == 'violation':
-                    small = self.shrink(scn, i)
+                    small = self.shrink(scn, i % n)
                     res.violations.append({
-                        'what': 'a reference does not evaluate to the value(s) of the addressed cell(s)',
+                        'what': ('a reference does not evaluate to the CURRENT value(s) of the addressed cell(s) after '
+                                 'set_cell_value' if i >= n else
+                                 'a reference does not evaluate to the value(s) of the addressed cell(s)'),
                         'input': {'kind': 'ev', 'probe': probe_formula(small, small['probes'][0]), 'scenario': small},
                         'expected': specs[i][:300], 'got': reals[i][:300]})
 
@@ -706,7 +856,7 @@ class EvRunner:
         d = parse_kv(self.ctx.driver.batch([scenario_line(scn)])[0])
         if 'impl' not in d:
             return False
-        reals = eval_real(scn, self.tmp.name)
+        reals, _ = eval_real(scn, self.tmp.name)
         cls, _, _ = self.classify(scn, reals, d, 'shrink')
         return any(k == 'violation' for _, k, _ in cls)
 
@@ -1064,7 +1214,11 @@ def run(ctx):
                 'blanks, apostrophes, digits, non-ASCII), a used area that is small / wide / long (90-320 rows) / a '
                 '9-14 square block at origins around Z|AA, ZZ|AAA and rows 9|10, 99|100, dense to empty, formula cells and a '
                 'chain that crosses the sheets repeatedly with unqualified own-sheet operands, defined names on cells '
-                'and ranges; probes =REF, =REF+0, =R (array), =SUM(R), =COUNTA(R), =name, =SUM(name), evaluate(name) with '
+                'and ranges, a three-level dependency block across sheets; probes =REF, =REF+0, =R (array), =SUM(R), '
+                '=COUNTA(R), =name, =SUM(name), evaluate(name), two or three references with EQUAL coordinates on different '
+                'sheets in one formula (=SUM(R1)-SUM(R2), =c1+c2, =COUNTA+COUNTA); every probe is evaluated again on the same '
+                'model after set_cell_value steps on inputs 1, 2 and 3 levels below range members, chain constants, area '
+                'constants and empty cells (oracle: Spec on the updated workbook; also a freshly compiled model); all with '
                 'random $ flags and qualification (unqualified / plain / quoted), through read_and_parse_dict and '
                 '(a sample) through a written .xlsx; direct resolve_ranges on every $/qualification spelling of structured '
                 'targets, unbounded rows/columns; num2col/col2num and openpyxl exhaustively on 1..18278 plus large numbers. '
@@ -1087,7 +1241,7 @@ def run(ctx):
         run_columns(ctx, res)
         run_direct(ctx, res)
         thorough = ctx.tier == 'thorough'
-        target = 200000 if thorough else 3000
+        target = 200000 if thorough else 4500
         if ctx.widen:
             target = 20000
         if os.environ.get('XLVERIF_C03_PROBES'):
